@@ -551,7 +551,7 @@ def _tactic1(nctx, names, elims, which):
                 h.cover("transformed")
                 r = res[0]
                 h.ensure("C04.%s.bound" % which, z3.Implies(s.sat(ctx), bound_ok(s, term, r, refine)))
-                h.check("C06.%s.no_auxiliary_variable" % which, "_" not in s.coefs(r), "the auxiliary variable '_' survives in the result")
+                h.check("C04.%s.no_auxiliary_variable" % which, "_" not in s.coefs(r), "the auxiliary variable '_' survives in the result")
                 h.check("C13.%s.fresh" % which, r is not term and all(r is not g for g in ctx_terms), "result is an operand")
         h.check("C13.operands_unchanged", all(s.unchanged(t, sn) for t, sn in zip([term] + ctx_terms, snaps)), "operand modified")
         h.frame_ok(out, "C13.frame")
@@ -563,7 +563,7 @@ for _which in ("_tactic_1", "_tactic_3"):
     for _nctx, _names, _elims, _tier, _sh in ((1, V2, [["y"], ["x", "y"]], "quick", 2), (2, V2, [["y"], ["x", "y"], ["y", "x"]], "quick", 16), (2, V3, [["x", "y"], ["y", "x"]], "thorough", 16), (3, V2, [["x", "y"]], "thorough", 16)):
         contract(
             "PolyhedralTermList.%s[%d context terms over %s]" % (_which, _nctx, ",".join(_names)),
-            ["C04", "C14", "C13", "C06"],
+            ["C04", "C14", "C13"],
             [PTL + _which, PTL + "_context_reduction", PTL + "_get_kaykobad_context", POLY + ":PolyhedralTerm.substitute_variable"],
             "S",
             bound="term and %d context terms over {%s} (every support); eliminated variables %s; at most 2 simultaneously solved variables" % (_nctx, ",".join(_names), _elims),
